@@ -1809,7 +1809,13 @@ func (m *Monitors) c11State(n *Node, pre, post *raft.VerifState, c *Cause) {
 			if !containsU64(post.Voters, n.ID) && len(post.Voters) == 1 && len(post.VotersOutgoing) == 0 {
 				sig = "c11.answer_without_quorum/non_member_leader_single_voter"
 			}
-			m.viol([]string{"C11"}, "answer_after_quorum_heard", sig,
+			props := []string{"C11"}
+			if len(post.VotersOutgoing) > 0 {
+				// C10: while a configuration is joint, majorities of both
+				// voter sets are required - for confirming reads as well
+				props = append(props, "C10")
+			}
+			m.viol(props, "answer_after_quorum_heard", sig,
 				"leader %d (term %d, config %s) answered read %s (received at step %d) having heard since then only from %v",
 				n.ID, post.Term, confOfState(post), ctx, recv, sortedU64(heard))
 		}
